@@ -434,6 +434,9 @@ class SymEval(object):
             if f.id in env:
                 return MethT(env[f.id], '__call__', args, kwargs)
             ent = self.dotted(fi, f)
+            if isinstance(ent, FuncInfo) and ent in getattr(self, 'opaque',
+                                                            ()):
+                return CallT(ent.qualname, args, kwargs)
             if isinstance(ent, FuncInfo) and depth < 6:
                 return self.run_kw(ent, args, kwargs, depth + 1)
             if isinstance(ent, External):
